@@ -12,6 +12,8 @@ Decides absence of the static sources of run-to-run variation on the generation 
  * C16.hash-value: hash() values only feed __hash__ or a cached hash attribute.
 Determinism of the module under test, of dict orders derived from module namespaces, and of thread
 timing is not decided.
+Further clauses (added later): sorted(..., key=...) sites are accepted only with an injective key from an
+enumerated table.
 """
 
 from __future__ import annotations
